@@ -163,21 +163,31 @@ func runCLI(args []string) (stdout, stderr string, exit int, err error) {
 		return "", "", -1, err
 	}
 	go func() { done <- cmd.Wait() }()
-	select {
-	case werr := <-done:
-		exit = 0
-		if werr != nil {
-			if ee, ok := werr.(*exec.ExitError); ok {
-				exit = ee.ExitCode()
-			} else {
-				return "", "", -1, werr
+	// the child may use 30 s of CPU time (or sit blocked for 300 s of wall-clock time) before it is killed as hanging
+	start := time.Now()
+	tick := time.NewTicker(250 * time.Millisecond)
+	defer tick.Stop()
+	for {
+		select {
+		case werr := <-done:
+			exit = 0
+			if werr != nil {
+				if ee, ok := werr.(*exec.ExitError); ok {
+					exit = ee.ExitCode()
+				} else {
+					return "", "", -1, werr
+				}
+			}
+			return so.String(), se.String(), exit, nil
+		case <-tick.C:
+			cpu, ok := childCPU(cmd.Process.Pid)
+			if (ok && cpu > 30*time.Second) || time.Since(start) > 300*time.Second {
+				_ = cmd.Process.Kill()
+				<-done
+				return so.String(), se.String(), -2, nil
 			}
 		}
-	case <-time.After(30 * time.Second):
-		_ = cmd.Process.Kill()
-		return so.String(), se.String(), -2, nil
 	}
-	return so.String(), se.String(), exit, nil
 }
 
 func c06CLI(args []string) string {
@@ -186,7 +196,7 @@ func c06CLI(args []string) string {
 		return "" // cannot start (e.g. argument with NUL): not a verdict
 	}
 	if exit == -2 {
-		return "the CLI did not terminate within 30 s"
+		return "the CLI did not terminate (30 s of CPU time used, or blocked for 300 s)"
 	}
 	if exit != 0 && exit != 1 {
 		return fmt.Sprintf("exit status %d (stderr %q)", exit, truncate(se, 300))
@@ -211,16 +221,26 @@ func truncate(s string, n int) string {
 	return s
 }
 
-// withDeadline runs f and reports a violation if it does not return within 20 s
-// (inputs of replayed cases are at most a few kB long).
+// withDeadline runs f and reports a violation if it does not return within 20 s of CPU time of this process (or
+// 200 s of wall-clock time, for a call that is blocked); inputs of replayed cases are at most a few kB long.
 func withDeadline(f func() string) (bool, string) {
 	done := make(chan string, 1)
 	go func() { done <- f() }()
-	select {
-	case bad := <-done:
-		return bad != "", bad
-	case <-time.After(20 * time.Second):
-		return true, "the call did not return within 20 s"
+	start, cpu0 := time.Now(), cpuNow()
+	tick := time.NewTicker(250 * time.Millisecond)
+	defer tick.Stop()
+	for {
+		select {
+		case bad := <-done:
+			return bad != "", bad
+		case <-tick.C:
+			if cpuNow()-cpu0 > 20*time.Second {
+				return true, "the call did not return within 20 s of CPU time"
+			}
+			if time.Since(start) > 200*time.Second {
+				return true, "the call did not return within 200 s"
+			}
+		}
 	}
 }
 
@@ -350,7 +370,7 @@ func startWatchdog(t *testing.T, r *runner, limit time.Duration) func() {
 	stop := make(chan struct{})
 	go func() {
 		last := int64(-1)
-		lastChange := time.Now()
+		lastChange, lastCPU := time.Now(), cpuNow()
 		for {
 			select {
 			case <-stop:
@@ -359,15 +379,17 @@ func startWatchdog(t *testing.T, r *runner, limit time.Duration) func() {
 			}
 			p := progress.Load()
 			if p != last {
-				last, lastChange = p, time.Now()
+				last, lastChange, lastCPU = p, time.Now(), cpuNow()
 				continue
 			}
-			if time.Since(lastChange) > limit {
+			// the limit is CPU time consumed by this process since the call started (a busy machine must not
+			// turn into an alarm); ten times the limit of wall-clock time catches a call that is blocked
+			if cpuNow()-lastCPU > limit || time.Since(lastChange) > 10*limit {
 				desc, _ := currentInput.Load().(string)
-				c := known.Case{Property: "C06", Check: "hang", Eco: envEco, Inputs: []string{desc}, Detail: fmt.Sprintf("a single call did not return within %s", limit)}
+				c := known.Case{Property: "C06", Check: "hang", Eco: envEco, Inputs: []string{desc}, Detail: fmt.Sprintf("a single call did not return within %s of CPU time (or %s of wall-clock time)", limit, 10*limit)}
 				if kc, ok := currentCase.Load().(*known.Case); ok && kc != nil {
 					c = *kc
-					c.Detail = fmt.Sprintf("the call did not return within %s (%s)", limit, desc)
+					c.Detail = fmt.Sprintf("the call did not return within %s of CPU time (%s)", limit, desc)
 				}
 				if envFail != "" {
 					_ = os.WriteFile(envFail, []byte(c.String()), 0o644)
@@ -464,9 +486,9 @@ func growthCheck(entry, fam string, note func(string)) string {
 		best := time.Duration(1 << 62)
 		for rep := 0; rep < 3; rep++ {
 			step(fmt.Sprintf("%s on family %s with n=%d", entry, fam, n0<<k))
-			t0 := time.Now()
+			t0 := cpuNow()
 			callEntry(entry, s)
-			if d := time.Since(t0); d < best {
+			if d := cpuNow() - t0; d < best {
 				best = d
 			}
 			if best > 5*time.Second {
@@ -687,6 +709,7 @@ func c06CLIUnit(t *testing.T, r *runner) {
 		for k := 1; k <= 300; k += stepK {
 			arg := strings.Repeat(ch, k)
 			for _, args := range [][]string{{"npm", "compare", arg, "1.0.0"}, {"vers", "contains", "vers:npm/>=" + arg, "1.0.0"}, {"debian", "sort", "1.0", arg}} {
+				step("CLI " + args[0] + " " + args[1] + " with an argument of " + strconv.Itoa(k) + " multi-byte characters")
 				r.ev.Eval()
 				if bad := c06CLI(args); bad != "" {
 					failPlain(t, r, known.Case{Property: "C06", Check: "cli", Eco: "cli", Inputs: args, Detail: bad})
@@ -733,7 +756,7 @@ func c06CLIUnit(t *testing.T, r *runner) {
 		bad := ""
 		switch {
 		case exit == -2:
-			bad = "the CLI did not terminate within 30 s"
+			bad = "the CLI did not terminate (30 s of CPU time used, or blocked for 300 s)"
 		case exit != 0 && exit != 1:
 			bad = fmt.Sprintf("exit status %d (stderr %q)", exit, truncate(se, 300))
 		case exit == 0 && se != "":
